@@ -123,6 +123,8 @@ def run_oracle(ep, r):
         bad.append(("residue", "the same instance gives a different result for a probe statement than a fresh instance"))
     if not r["state_clean"]:
         bad.append(("residue", "the parser keeps the context / a non-zero depth after the cancelled call"))
+    if r.get("pool_dup"):
+        bad.append(("residue", "after the cancelled call %s (an object was released twice)" % r["pool_dup"]))
     return bad
 
 
